@@ -1,2 +1,197 @@
-import Cctz.Model.Civil
-import Cctz.Spec.Gregorian
+/-
+  C17 helper proofs: get_weekday, get_yearday, next_weekday and prev_weekday against the
+  calendar specification.
+-/
+import Cctz.Proofs.WdInt
+import Cctz.Proofs.WdCalendar
+import Cctz.Proofs.WdNDay
+
+namespace Cctz.Wd
+open Cctz.Spec
+
+theorem month_cases (m : Int) (h1 : 1 ≤ m) (h2 : m ≤ 12) :
+    m = 1 ∨ m = 2 ∨ m = 3 ∨ m = 4 ∨ m = 5 ∨ m = 6 ∨ m = 7 ∨ m = 8 ∨ m = 9 ∨ m = 10 ∨ m = 11 ∨ m = 12 := by
+  omega
+
+/-! ### get_weekday -/
+
+/-- the value read from `kWeekdayByMonOff` at index `k + 6`, `0 ≤ k ≤ 6` -/
+theorem monOff_lookup (k : Int) (h0 : 0 ≤ k) (h6 : k ≤ 6) :
+    (getC Gen.kWeekdayByMonOff (k + 6) 0).ok ∧ (getC Gen.kWeekdayByMonOff (k + 6) 0).val = (k + 6) % 7 := by
+  have : k = 0 ∨ k = 1 ∨ k = 2 ∨ k = 3 ∨ k = 4 ∨ k = 5 ∨ k = 6 := by omega
+  rcases this with h | h | h | h | h | h | h <;> subst h <;> decide
+
+theorem wdOffsets_ok (m : Int) (h1 : 1 ≤ m) (h2 : m ≤ 12) : (getC Gen.kWeekdayOffsets m 0).ok := by
+  rw [getC_ok]; simp [Gen.kWeekdayOffsets]; omega
+
+/-- the arithmetic heart of get_weekday on one 400-year cycle residue -/
+theorem weekday_core (r m d : Int) (hm1 : 1 ≤ m) (hm2 : m ≤ 12) :
+    let w := 2400 + r - b2i (decide (m < 3))
+    (w + leapsThrough w + ((getC Gen.kWeekdayOffsets m 0).val + d)) % 7 = (dayNum r m d + 4) % 7 := by
+  intro w
+  rw [dayNum_shift]
+  have hs : r + b2i (decide (m > 2)) - 1 = w + 400 * (-6) := by
+    simp only [w, b2i]; by_cases h : m > 2
+    · have h' : ¬ m < 3 := by omega
+      simp [h, h']; omega
+    · have h' : m < 3 := by omega
+      simp [h, h']; omega
+  rw [hs, leapsThrough_add400]
+  have hs' : r + b2i (decide (m > 2)) = w + 400 * (-6) + 1 := by omega
+  rw [hs']
+  have h1969 : leapsThrough 1969 = 477 := by decide
+  rw [h1969]
+  generalize leapsThrough w = l
+  generalize w = w
+  rcases month_cases m hm1 hm2 with h | h | h | h | h | h | h | h | h | h | h | h <;> subst h <;>
+    simp [getC, Gen.kWeekdayOffsets, monConst, cumDays] <;> omega
+
+theorem getWeekday_correct (f : Fields) (hv : Valid f) :
+    (Civil.getWeekday f).ok ∧ (Civil.getWeekday f).val = weekdayOfDay (dayNum f.y f.m f.d) := by
+  obtain ⟨hm1, hm2, hd1, _⟩ := hv
+  obtain ⟨q, hq, hlo, hhi⟩ := cmod400_decomp f.y
+  generalize hr : cmod f.y 400 = r at hq hlo hhi
+  have hcore := weekday_core r f.m f.d hm1 hm2
+  have hday : dayNum f.y f.m f.d = dayNum r f.m f.d + 146097 * q := by
+    rw [hq, Int.add_comm (400 * q) r, dayNum_add400]
+  -- the intermediate C++ values
+  have hb : 0 ≤ b2i (decide (f.m < 3)) ∧ b2i (decide (f.m < 3)) ≤ 1 := by
+    unfold b2i; split <;> omega
+  have hoff : 0 ≤ (getC Gen.kWeekdayOffsets f.m 0).val ∧ (getC Gen.kWeekdayOffsets f.m 0).val ≤ 6 := by
+    rcases month_cases f.m hm1 hm2 with h | h | h | h | h | h | h | h | h | h | h | h <;> rw [h] <;> decide
+  simp only [Civil.getWeekday, Ck.bind_ok, Ck.bind_val, hr]
+  generalize hw : 2400 + r - b2i (decide (f.m < 3)) = w at hcore
+  have hw0 : 1999 ≤ w := by omega
+  rw [cdiv_nonneg w 4 (by omega), cdiv_nonneg w 100 (by omega), cdiv_nonneg w 400 (by omega)]
+  simp only [] at hcore
+  unfold leapsThrough at hcore
+  generalize hoffv : (getC Gen.kWeekdayOffsets f.m 0).val = off at hcore hoff
+  have hwd2 : 0 ≤ w + (w / 4 - w / 100 + w / 400) + (off + f.d) := by omega
+  rw [cmod_nonneg _ 7 hwd2]
+  have hk := monOff_lookup ((w + (w / 4 - w / 100 + w / 400) + (off + f.d)) % 7) (by omega) (by omega)
+  refine ⟨⟨wdOffsets_ok f.m hm1 hm2, hk.1⟩, ?_⟩
+  rw [hk.2, hday]
+  unfold weekdayOfDay
+  omega
+
+/-! ### get_yearday -/
+
+theorem getYearday_correct (f : Fields) (hv : Valid f) :
+    (Civil.getYearday f).ok ∧
+    (Civil.getYearday f).val = dayNum f.y f.m f.d - dayNum f.y 1 1 + 1 ∧
+    1 ≤ (Civil.getYearday f).val ∧ (Civil.getYearday f).val ≤ daysInYear f.y := by
+  obtain ⟨hm1, hm2, hd1, hd2, _⟩ := hv
+  simp only [Civil.getYearday, Ck.bind_ok, Ck.bind_val, Ck.pure_val, Ck.pure_ok, and_true,
+    isLeapYear_eq]
+  have hok : (getC Gen.kMonthOffsetsYd f.m 0).ok := by
+    rw [getC_ok]; simp [Gen.kMonthOffsetsYd]; omega
+  refine ⟨hok, ?_⟩
+  unfold dayNum daysBeforeMonth daysInYear
+  unfold daysInMonth at hd2
+  generalize f.d = d at *
+  generalize f.y = y at *
+  generalize isLeap y = lp at *
+  rcases month_cases f.m hm1 hm2 with h | h | h | h | h | h | h | h | h | h | h | h <;> rw [h] at hd2 ⊢ <;>
+    cases lp <;> simp [getC, Gen.kMonthOffsetsYd, cumDays, b2i] at hd2 ⊢ <;> omega
+
+/-! ### the specification's weekday function -/
+
+theorem weekday_sanity :
+    weekdayOfDay (dayNum 1970 1 1) = 3 ∧ ∀ n : Int, weekdayOfDay (n + 1) = (weekdayOfDay n + 1) % 7 := by
+  refine ⟨by decide, ?_⟩
+  intro n; unfold weekdayOfDay; omega
+
+/-! ### next_weekday / prev_weekday: the table walks and the day step -/
+
+theorem forw_walk (b w : Int) (hb0 : 0 ≤ b) (hb6 : b ≤ 6) (hw0 : 0 ≤ w) (hw6 : w ≤ 6) :
+    (Civil.findFrom Gen.kWeekdaysForw b 0 15).ok ∧
+    (Civil.findFrom Gen.kWeekdaysForw w ((Civil.findFrom Gen.kWeekdaysForw b 0 15).val.toNat + 1) 15).ok ∧
+    (Civil.findFrom Gen.kWeekdaysForw w ((Civil.findFrom Gen.kWeekdaysForw b 0 15).val.toNat + 1) 15).val
+      - (Civil.findFrom Gen.kWeekdaysForw b 0 15).val = (w - b + 6) % 7 + 1 := by
+  have h1 : b = 0 ∨ b = 1 ∨ b = 2 ∨ b = 3 ∨ b = 4 ∨ b = 5 ∨ b = 6 := by omega
+  have h2 : w = 0 ∨ w = 1 ∨ w = 2 ∨ w = 3 ∨ w = 4 ∨ w = 5 ∨ w = 6 := by omega
+  rcases h1 with h | h | h | h | h | h | h <;> subst h <;>
+    rcases h2 with h | h | h | h | h | h | h <;> subst h <;> decide
+
+theorem back_walk (b w : Int) (hb0 : 0 ≤ b) (hb6 : b ≤ 6) (hw0 : 0 ≤ w) (hw6 : w ≤ 6) :
+    (Civil.findFrom Gen.kWeekdaysBack b 0 15).ok ∧
+    (Civil.findFrom Gen.kWeekdaysBack w ((Civil.findFrom Gen.kWeekdaysBack b 0 15).val.toNat + 1) 15).ok ∧
+    (Civil.findFrom Gen.kWeekdaysBack w ((Civil.findFrom Gen.kWeekdaysBack b 0 15).val.toNat + 1) 15).val
+      - (Civil.findFrom Gen.kWeekdaysBack b 0 15).val = (b - w + 6) % 7 + 1 := by
+  have h1 : b = 0 ∨ b = 1 ∨ b = 2 ∨ b = 3 ∨ b = 4 ∨ b = 5 ∨ b = 6 := by omega
+  have h2 : w = 0 ∨ w = 1 ∨ w = 2 ∨ w = 3 ∨ w = 4 ∨ w = 5 ∨ w = 6 := by omega
+  rcases h1 with h | h | h | h | h | h | h <;> subst h <;>
+    rcases h2 with h | h | h | h | h | h | h <;> subst h <;> decide
+
+theorem weekdayOfDay_range (n : Int) : 0 ≤ weekdayOfDay n ∧ weekdayOfDay n ≤ 6 := by
+  unfold weekdayOfDay; omega
+
+/-- stepping a valid day-aligned date by `k`, `|k| ≤ 7`, through `n_day` -/
+theorem dayStep_holds (cd : Fields) (k : Int) (hv : Valid cd) (hk1 : -7 ≤ k) (hk2 : k ≤ 7) :
+    Holds (Civil.align .day <$> Civil.step .day cd k) (fun r =>
+      Valid r ∧ Aligned .day r ∧ dayNum r.y r.m r.d = dayNum cd.y cd.m cd.d + k) := by
+  obtain ⟨hm1, hm2, hd1, hd2, _⟩ := hv
+  have hb := daysInMonth_bounds cd.y cd.m
+  apply holds_map
+  refine holds_mono (nDay_small cd.y cd.m cd.d k cd.hh cd.mm cd.ss hm1 hm2 hd1 (by omega) (by omega) (by omega)) ?_
+  intro r ⟨h1, h2, h3, h4, h5, _⟩
+  refine ⟨⟨h2, h3, h4, h5, ?_⟩, ⟨rfl, rfl, rfl⟩, h1⟩
+  simp [Civil.align]
+
+theorem nextWeekday_holds (cd : Fields) (w : Int) (hv : Valid cd) (hw0 : 0 ≤ w) (hw6 : w ≤ 6) :
+    Holds (Civil.nextWeekday cd w) (fun r =>
+      Valid r ∧ Aligned .day r ∧
+      ∃ k : Int, 1 ≤ k ∧ k ≤ 7 ∧ dayNum r.y r.m r.d = dayNum cd.y cd.m cd.d + k ∧
+        weekdayOfDay (dayNum cd.y cd.m cd.d + k) = w ∧
+        ∀ j : Int, 1 ≤ j → j < k → weekdayOfDay (dayNum cd.y cd.m cd.d + j) ≠ w) := by
+  obtain ⟨gok, gval⟩ := getWeekday_correct cd hv
+  unfold Civil.nextWeekday
+  refine holds_bind (fun b => b = weekdayOfDay (dayNum cd.y cd.m cd.d)) ⟨safe_of_ok _ gok, gval⟩ ?_
+  intro b hb
+  have hbr := weekdayOfDay_range (dayNum cd.y cd.m cd.d)
+  rw [← hb] at hbr
+  obtain ⟨iok, jok, hji⟩ := forw_walk b w hbr.1 hbr.2 hw0 hw6
+  refine holds_bind (fun i => i = (Civil.findFrom Gen.kWeekdaysForw b 0 15).val) ⟨safe_of_ok _ iok, rfl⟩ ?_
+  intro i hi; subst hi
+  refine holds_bind (fun j => j = (Civil.findFrom Gen.kWeekdaysForw w
+    ((Civil.findFrom Gen.kWeekdaysForw b 0 15).val.toNat + 1) 15).val) ⟨safe_of_ok _ jok, rfl⟩ ?_
+  intro j hj; subst hj
+  rw [hji]
+  unfold Civil.civilAdd
+  refine holds_mono (dayStep_holds cd _ hv (by omega) (by omega)) ?_
+  intro r ⟨h1, h2, h3⟩
+  refine ⟨h1, h2, (w - b + 6) % 7 + 1, by omega, by omega, h3, ?_, ?_⟩
+  · unfold weekdayOfDay at hb ⊢; omega
+  · intro j hj1 hj2; unfold weekdayOfDay at hb ⊢; omega
+
+theorem prevWeekday_holds (cd : Fields) (w : Int) (hv : Valid cd) (hw0 : 0 ≤ w) (hw6 : w ≤ 6) :
+    Holds (Civil.prevWeekday cd w) (fun r =>
+      Valid r ∧ Aligned .day r ∧
+      ∃ k : Int, 1 ≤ k ∧ k ≤ 7 ∧ dayNum r.y r.m r.d = dayNum cd.y cd.m cd.d - k ∧
+        weekdayOfDay (dayNum cd.y cd.m cd.d - k) = w ∧
+        ∀ j : Int, 1 ≤ j → j < k → weekdayOfDay (dayNum cd.y cd.m cd.d - j) ≠ w) := by
+  obtain ⟨gok, gval⟩ := getWeekday_correct cd hv
+  unfold Civil.prevWeekday
+  refine holds_bind (fun b => b = weekdayOfDay (dayNum cd.y cd.m cd.d)) ⟨safe_of_ok _ gok, gval⟩ ?_
+  intro b hb
+  have hbr := weekdayOfDay_range (dayNum cd.y cd.m cd.d)
+  rw [← hb] at hbr
+  obtain ⟨iok, jok, hji⟩ := back_walk b w hbr.1 hbr.2 hw0 hw6
+  refine holds_bind (fun i => i = (Civil.findFrom Gen.kWeekdaysBack b 0 15).val) ⟨safe_of_ok _ iok, rfl⟩ ?_
+  intro i hi; subst hi
+  refine holds_bind (fun j => j = (Civil.findFrom Gen.kWeekdaysBack w
+    ((Civil.findFrom Gen.kWeekdaysBack b 0 15).val.toNat + 1) 15).val) ⟨safe_of_ok _ jok, rfl⟩ ?_
+  intro j hj; subst hj
+  rw [hji]
+  unfold Civil.civilSub
+  have hne : (((b - w + 6) % 7 + 1) != i64min) = true := by
+    rw [bne_iff_ne]; unfold i64min; omega
+  rw [if_pos hne]
+  apply holds_chk64_bind
+  refine holds_mono (dayStep_holds cd _ hv (by omega) (by omega)) ?_
+  intro r ⟨h1, h2, h3⟩
+  refine ⟨h1, h2, (b - w + 6) % 7 + 1, by omega, by omega, by omega, ?_, ?_⟩
+  · unfold weekdayOfDay at hb ⊢; omega
+  · intro j hj1 hj2; unfold weekdayOfDay at hb ⊢; omega
+
+end Cctz.Wd
